@@ -38,7 +38,7 @@ SC_OPS = {"add_node", "add_nodes_from", "remove_node", "remove_nodes_from", "set
 def cases(draw, tier):
     cls = draw(st.sampled_from(["H", "H", "DH", "SC"]))
     kind = draw(nets.kinds)
-    spec = draw(nets.net_spec(cls=cls, kind=kind, max_edges=5, allow_empty=(cls != "SC"), nested=True))
+    spec = draw(nets.net_spec(cls=cls, kind=kind, max_edges=5, allow_empty=(cls != "SC"), nested=True, tuples=True))
     n = 8 if tier == "quick" else 16
     if cls == "H":
         op = hops.op_strategy(kind, none_p=True, bulk_empty=False, heavy=False, only=H_OPS)
@@ -68,27 +68,35 @@ def derive(H, how):
 
 def has_nested(spec):
     def nested(a):
-        return any(isinstance(v, (list, dict)) for v in a.values())
+        return any(isinstance(v, (list, dict)) for v in a.values())  # {"__t": ...} (a tuple holding a list) is a dict here
 
     return nested(spec["net"]) or any(nested(n[1]) for n in spec["nodes"]) or any(nested(e[-1]) for e in spec["edges"])
 
 
 def mutate_nested(H):
-    """in-place change of every nested attribute value reachable through H; returns how many"""
-    k = 0
+    """in-place change of every mutable value reachable (at any depth, also through tuples) from the attributes of H"""
+    k = [0]
+
+    def walk(v):
+        if isinstance(v, list):
+            for x in list(v):
+                walk(x)
+            v.append("mutated")
+            k[0] += 1
+        elif isinstance(v, dict):
+            for x in list(v.values()):
+                walk(x)
+            v["mutated"] = 1
+            k[0] += 1
+        elif isinstance(v, tuple):
+            for x in v:
+                walk(x)
+
     tabs = [H.nodes[n] for n in H.nodes] + [H.edges[e] for e in H.edges] + [H._net_attr]
     for a in tabs:
-        for v in a.values():
-            if isinstance(v, list):
-                v.append("mutated")
-                k += 1
-            elif isinstance(v, dict):
-                v["mutated"] = 1
-                k += 1
-                for x in v.values():
-                    if isinstance(x, list):
-                        x.append("deep")
-    return k
+        for v in list(a.values()):
+            walk(v)
+    return k[0]
 
 
 def add_auto(H, cls, i):
